@@ -837,6 +837,9 @@ func farmRandom(fl *drv.Flags, rng *rand.Rand, w *chain.TraceWriter) {
 						tot[d] = int64(1 + rng.Intn(6))
 						if e.mag {
 							tot[d] = int64(1 + rng.Intn(300))
+							if rng.Intn(3) == 0 { // large top-ups: remaining + top-up crosses a word boundary
+								tot[d] = int64(500 + rng.Intn(2500))
+							}
 						}
 					}
 					if rng.Intn(2) == 0 {
